@@ -13,6 +13,7 @@ package main
 //	vmexec-tv-differs    the VM model on the emitted code differs from the reference semantics
 
 import (
+	"context"
 	"fmt"
 	"math/big"
 	"math/rand"
@@ -84,7 +85,7 @@ func init() {
 				return // a replay of another sweep
 			}
 		} else {
-			cs = sweepCases(c, count(c, c.N, 80, 800))
+			cs = sweepCases(c, count(c, c.N, 60, 800))
 		}
 		ps := make([]*Prog, len(cs))
 		for i := range cs {
@@ -95,11 +96,21 @@ func init() {
 			c.Fail("gc-unavailable", map[string]string{"error": err.Error()})
 			return
 		}
-		// the real VM
+		// the real VM (a changed VM may make every program slow: the search stops after 20
+		// timeouts, the programs not run are not evaluated)
 		rs := make([]*scResult, len(cs))
 		var lines []string
+		timeouts := 0
 		for i, cse := range cs {
+			if timeouts >= 20 {
+				cs, ps, gc = cs[:i], ps[:i], gc[:i]
+				c.Count("stopped-after-20-timeouts")
+				break
+			}
 			rs[i] = runScriggo(cse.p.ScriggoSource())
+			if rs[i].runErr == context.DeadlineExceeded {
+				timeouts++
+			}
 			dump := "0"
 			if rs[i].funcs != nil && subsetReason(rs[i].funcs) == "" {
 				dump = encodeDump(rs[i].funcs)
@@ -112,6 +123,10 @@ func init() {
 			c.Count("model-driver-unavailable")
 		}
 		for i, cse := range cs {
+			if c.Stats["failures"] >= 40 {
+				c.Count("stopped-after-40-failures")
+				break
+			}
 			c.Count("evaluations")
 			detail := func(extra map[string]string) map[string]any {
 				m := map[string]any{"prog_seed": cse.seed, "name": cse.name, "source": cse.p.ScriggoSource(), "gc": gc[i], "scriggo": rs[i].outcome()}
@@ -128,6 +143,8 @@ func init() {
 			if sc != gc[i] {
 				sig := "exec-differs:" + diffClass(sc, gc[i])
 				switch {
+				case rs[i].runErr == context.DeadlineExceeded:
+					sig = "exec-timeout"
 				case rs[i].buildErr != nil:
 					sig = "exec-build-error"
 				case stackGrowthPanic(rs[i].hostPanic):
